@@ -243,6 +243,18 @@ func (nl *NodeList) RemoveNodes(ids []string) {
 	}
 
 	nl.Nodes = newNodeList
+
+	// Removed nodes cannot remain root elements
+	newRootElements := make([]string, 0, len(nl.RootElements))
+	for _, id := range nl.RootElements {
+		if _, ok := idDict[id]; !ok {
+			newRootElements = append(newRootElements, id)
+		}
+	}
+	if len(newRootElements) != len(nl.RootElements) {
+		nl.RootElements = newRootElements
+	}
+
 	nl.cleanEdges()
 }
 
